@@ -51,7 +51,10 @@ def gen_swc(r):
 
     rs = round(r.uniform(3.0, 8.0), 3)
     s1 = emit(1, 0.0, 0.0, 0.0, rs, -1)
-    s2 = emit(1, round(r.uniform(5, 15), 3), 0.0, 0.0, rs, s1)
+    nsoma = r.choice([1, 2, 2, 3])  # single-point soma, two-point soma, three-point soma
+    s2 = s1
+    for k in range(1, nsoma):
+        s2 = emit(1, round(k * r.uniform(5, 15), 3), 0.0, 0.0, rs, s2)
     budget = [r.randint(2, 6)]
 
     def grow(parent, tp, x, y, z, depth):
@@ -120,6 +123,14 @@ def generate(seed, tier="quick"):
                       {"op": "set_ncomp", "branch": o.randrange(64), "n": o.randint(1, 5)}, {"op": "delete_stimuli", "view": []}]
         elif k < 0.3:
             calls.append({"op": "set_ncomp_all", "n": o.randint(1, 4)})
+        elif k < 0.42:
+            # refused call in the middle of the sequence: a branch made non-uniform is re-discretised (must be refused),
+            # made uniform again, and the sequence goes on — the refused call must have left nothing behind
+            b_ = o.randrange(64)
+            key = o.choice(["capacitance", "axial_resistivity"] + ([] if shape["kind"] == "swc" else ["radius"]))
+            calls += [{"op": "set", "view": [["branch", {"t": "int", "v": b_}], ["comp", {"t": "int", "v": 0}]], "key": key, "val": {"seed": o.randrange(1 << 30)}},
+                      {"op": "set_ncomp", "branch": b_, "n": o.randint(1, 5)},
+                      {"op": "set", "view": [["branch", {"t": "int", "v": b_}]], "key": key, "val": {"seed": o.randrange(1 << 30)}}]
         else:
             calls.append({"op": "set_ncomp", "branch": o.randrange(64), "n": o.randint(1, 5)})
     return {"prop": PROPERTY, "shape": shape, "prep": prep, "calls": calls, "steps": o.randint(3, 10), "dt": o.choice(DTS),
@@ -183,6 +194,11 @@ def execute(program):
                 if snap.snapshot(w.m, with_xyzr=False) != before:
                     w.bump("non_atomic_reject")
                     w.stopped = "rejected set_ncomp changed the tables"
+                    from ..invariants import structural_invariants
+
+                    d2 = structural_invariants(w.m)
+                    if d2:
+                        w.violate("setncomp_surroundings", "after a refused set_ncomp: " + "; ".join(d2[:4]), i, {"after_refused_call": True})
         else:
             before_v = len(w.violations)
             out = apply_op(w, c, i)
